@@ -571,15 +571,22 @@ type symCand struct {
 func comparatorCandidates(p *Prog, pkgs map[string]bool, sm *summarizer) []symCand {
 	// two rounds: calls of predicates found symmetric in the first are order-free in the second
 	descSymCallees = nil
-	first := comparatorCandidates1(p, pkgs)
-	descSymCallees = map[*ssa.Function]bool{}
-	for _, c := range first {
-		if c.Sym {
-			descSymCallees[c.Fn] = true
-		}
-	}
 	defer func() { descSymCallees = nil }()
-	return comparatorCandidates1(p, pkgs)
+	var res []symCand
+	for round := 0; round < 6; round++ {
+		res = comparatorCandidates1(p, pkgs)
+		next := map[*ssa.Function]bool{}
+		for _, c := range res {
+			if c.Sym {
+				next[c.Fn] = true
+			}
+		}
+		if len(next) == len(descSymCallees) {
+			break
+		}
+		descSymCallees = next
+	}
+	return res
 }
 
 func comparatorCandidates1(p *Prog, pkgs map[string]bool) []symCand {
